@@ -65,6 +65,8 @@ struct IoState {
     s_waker: Option<Waker>,
     s_wake_at: Option<tokio::time::Instant>,
     shutdown_completed: bool,
+    /// poll_shutdown calls that came after the half-close had completed
+    shutdown_repeated: u32,
     /// (what, virtual time) of the first injected error actually returned to the bridge
     error_returned: Option<(String, io::ErrorKind)>,
     calls: u64,
@@ -215,6 +217,12 @@ impl AsyncWrite for ScriptedIo {
     fn poll_shutdown(self: Pin<&mut Self>, cx: &mut Context<'_>) -> Poll<io::Result<()>> {
         let mut st = self.0.lock().unwrap();
         st.shutdown_called = true;
+        if st.shutdown_completed {
+            // a local stream on which a completed half-close cannot be repeated (some transports answer NotConnected): a bridge
+            // that keeps its own state never asks twice
+            st.shutdown_repeated += 1;
+            return Poll::Ready(Err(io::Error::new(io::ErrorKind::NotConnected, "shutdown after the half-close had completed")));
+        }
         if st.s_wake_at.is_some() {
             st.s_waker = Some(cx.waker().clone());
             return Poll::Pending;
@@ -392,6 +400,7 @@ fn one(st: &mut Stats, seed: u64) {
         flush_polls: 0,
         shutdown_err: if case.err_site == Some("shutdown") { Some(kind) } else { None },
         shutdown_called: false,
+        shutdown_repeated: 0,
         shutdown_pendings,
         s_delay_ms,
         s_waker: None,
